@@ -42,7 +42,7 @@ theorem subInv_upd {cfg : Cfg} {s : State} (h : SubInv cfg s) (u : Nat) (f : Mod
 
 theorem subInv_count {cfg : Cfg} {s : State} (h : SubInv cfg s) (t : Int) : SubInv cfg (countMsg cfg s t) := by
   unfold countMsg; split
-  · exact h
+  · exact subInv_of_same h rfl (fun _ => rfl)
   · exact subInv_of_same h rfl (fun _ => rfl)
 
 /-- the nested-forward contract for the invariant -/
